@@ -545,4 +545,410 @@ theorem sound_op_strict (o : Opcode) (ho : strictOp o = true) (l r : Expr) (ihl 
         exact memR_union_left hu h1
     | _ => trivial
 
+theorem sound_op_err (l r : Expr) (ihl : IH l) (ihr : IH r) : IH (.op .err l r) := by
+  intro T s hk hc
+  obtain ⟨hkl, hef, hkr, hko⟩ := op_checks_split hk
+  have hef := hef rfl
+  have hc0 : Conforms { s with evCatch := true } T := Conforms.of_same (s := s) ⟨rfl, rfl, rfl, rfl⟩ hc
+  have h1 := ihl T _ hkl hc0
+  simp only [opChecks, allNan_append] at hko
+  rw [allNan_chk (by decide), allNan_chk (by decide)] at hko
+  obtain ⟨⟨hu1, hu2⟩, hm⟩ := hko
+  have mok := mergeOk_of_checks hm
+  rw [typeInfo, eval]
+  simp only [opInfo, opDef, opState, maybeRhs]
+  cases hq : eval l { s with evCatch := true } with
+  | mk r1 s1 =>
+    rw [hq] at h1
+    cases r1 with
+    | ok v =>
+      simp only [Sound] at h1 ⊢
+      exact ⟨memR_union_left hu1 h1.1, h1.2.1, Conforms.merge_left mok h1.2.2⟩
+    | err =>
+      -- the failed lhs left the state alone
+      have hsame := effectFree_same l hef { s with evCatch := true }
+      rw [hq] at hsame
+      have c1 : Conforms s1 (typeInfo l T).2 := Conforms.of_same hsame (effectFree_conforms l hef T hkl hc0)
+      have h2 := ihr _ s1 hkr c1
+      simp only [Sound] at h1
+      simp only
+      cases hq2 : eval r s1 with
+      | mk r2 s2 =>
+        rw [hq2] at h2
+        cases r2 with
+        | ok w =>
+          simp only [Sound] at h2 ⊢
+          exact ⟨memR_union_right hu1 h2.1, h2.2.1, Conforms.merge_right mok h2.2.2⟩
+        | err =>
+          simp only [Sound] at h2 ⊢
+          rcases h1 with h1 | h1
+          · rcases h2 with h2 | h2
+            · exact Or.inl (by simp [TypeDef.maybeFallible, h1, h2])
+            · exact Or.inr (nan_r h2)
+          · exact Or.inr (nan_l h1)
+        | ret x => simp only [Sound] at h2 ⊢; exact memR_union_right hu2 h2
+        | _ => trivial
+    | ret x => simp only [Sound] at h1 ⊢; exact memR_union_left hu2 h1
+    | _ => trivial
+
+theorem mem_withoutNull {v : Value} {K : Kind} (h : mem v K = true) (hn : v ≠ .null) :
+    mem v K.withoutNull = true := by
+  cases K with
+  | mk p a o =>
+    cases v <;> simp [mem, Kind.withoutNull, Kind.prim, Kind.hasArr, Kind.hasObj, arrayD, objectD,
+      Kind.array, Kind.object] at h ⊢ <;> try exact h
+    · exact absurd rfl hn
+    all_goals (cases a <;> cases o <;> simp_all [Kind.hasArr, Kind.hasObj, Kind.array, Kind.object])
+
+/-- a value that is not `null`/`false` when `||` is typed "always false" is impossible; a value that
+    is `null`/`false` when it is typed "always true" likewise -/
+theorem or_lhs_facts {v : Value} {l : TypeDef} (hv : memR v l.kind = true) :
+    mem v l.upgradeUndefined.kind = true ∧
+    (l.upgradeUndefined.kind.isNull = true → v = .null) ∧
+    ((l.upgradeUndefined.kind.containsNull || l.upgradeUndefined.kind.containsBoolean) = false →
+      v ≠ .null ∧ ∀ b, v ≠ .bool b) := by
+  have hm : mem v l.upgradeUndefined.kind = true := mem_upgrade_of_memR hv
+  refine ⟨hm, fun h => memR_isNull h (memR_of_mem hm), ?_⟩
+  intro h
+  simp only [Bool.or_eq_false_iff, Kind.containsNull, Kind.containsBoolean] at h
+  generalize l.upgradeUndefined.kind = K at hm h
+  cases K with
+  | mk p a o =>
+    simp only [Kind.prim] at h
+    constructor
+    · rintro rfl; simp [mem, Kind.prim] at hm; simp [hm] at h
+    · rintro b rfl; simp [mem, Kind.prim] at hm; simp [hm] at h
+
+theorem optValueEq_some_bool {lv : Option Value} {b : Bool} (h : optValueEq lv (some (.bool b)) = true) :
+    lv = some (.bool b) := by
+  cases lv with
+  | none => simp [optValueEq] at h
+  | some c => cases c <;> simp_all [optValueEq, Arith.veq]
+
+/-- the value of an lhs with a boolean constant -/
+theorem lhs_const {l : Expr} {T : TState} {s s1 : St} {v : Value} {b : Bool} (hc : Conforms s T)
+    (he : eval l s = (.ok v, s1)) (h : optValueEq (constOf l T) (some (.bool b)) = true) : v = .bool b := by
+  obtain ⟨s', e1, _⟩ := const_eval l T _ (optValueEq_some_bool h) s hc
+  rw [he] at e1; cases e1; rfl
+
+theorem lhs_const_no_err {l : Expr} {T : TState} {s s1 : St} {b : Bool} {r : Res} (hc : Conforms s T)
+    (he : eval l s = (r, s1)) (h : optValueEq (constOf l T) (some (.bool b)) = true) : r = .ok (.bool b) := by
+  obtain ⟨s', e1, _⟩ := const_eval l T _ (optValueEq_some_bool h) s hc
+  rw [he] at e1; cases e1; rfl
+
+/-- `||`: what `Op::resolve` does after the lhs evaluated to `v` -/
+theorem eval_or (l r : Expr) (s : St) :
+    eval (.op .or l r) s =
+      (match eval l { s with evShort := true } with
+       | (.ok v, s1) =>
+         if v = .null ∨ v = .bool false then
+           (match eval r s1 with
+            | (.ok w, s2) => (.ok w, s2)
+            | (.panic, s2) => (.panic, s2)
+            | (.oom, s2) => (.oom, s2)
+            | x => x)
+         else (.ok v, s1)
+       | x => x) := by
+  rw [eval]
+  cases hq : eval l { s with evShort := true } with
+  | mk r1 s1 =>
+    cases r1 with
+    | ok v =>
+      cases v with
+      | null => simp; rfl
+      | bool b => cases b <;> first | (simp; done) | (simp; rfl)
+      | _ => simp
+    | _ => rfl
+
+theorem sound_op_or (l r : Expr) (ihl : IH l) (ihr : IH r) : IH (.op .or l r) := by
+  intro T s hk hc
+  obtain ⟨hkl, _, hkr, hko⟩ := op_checks_split hk
+  have hc0 : Conforms { s with evShort := true } T := Conforms.of_same (s := s) ⟨rfl, rfl, rfl, rfl⟩ hc
+  have h1 := ihl T _ hkl hc0
+  rw [typeInfo, eval_or]
+  simp only [opInfo, opDef, opState]
+  simp only [opChecks] at hko
+  by_cases c1 : ((typeInfo l T).1.upgradeUndefined.kind.isNull || optValueEq (constOf l T) (some (.bool false))) = true
+  · -- the lhs is always "false": the result is the rhs
+    simp only [c1, if_true] at hko ⊢
+    rw [allNan_chk (by decide)] at hko
+    simp only [Bool.and_eq_true, Bool.not_eq_true'] at hko
+    cases hq : eval l { s with evShort := true } with
+    | mk r1 s1 =>
+      rw [hq] at h1
+      cases r1 with
+      | ok v =>
+        simp only [Sound] at h1
+        have hv : v = .null ∨ v = .bool false := by
+          simp only [Bool.or_eq_true] at c1
+          rcases c1 with c1 | c1
+          · exact Or.inl ((or_lhs_facts h1.1).2.1 c1)
+          · exact Or.inr (lhs_const hc0 hq c1)
+        have h2 := ihr _ s1 hkr h1.2.2
+        simp only [hv, if_true]
+        cases hq2 : eval r s1 with
+        | mk r2 s2 =>
+          rw [hq2] at h2
+          cases r2 with
+          | err =>
+            simp only [Sound] at h2 ⊢
+            rcases h2 with h | h
+            · exact Or.inl h
+            · exact Or.inr (nan_r h)
+          | _ => exact h2
+      | err =>
+        simp only [Sound] at h1 ⊢
+        rcases h1 with h | h
+        · rw [hko.1] at h; cases h
+        · exact Or.inr (nan_l h)
+      | ret x =>
+        simp only [Sound] at h1 ⊢
+        rw [memR_never x _ hko.2] at h1; cases h1
+      | _ => trivial
+  · simp only [c1, Bool.false_eq_true, if_false] at hko ⊢
+    by_cases c2 : (!((typeInfo l T).1.upgradeUndefined.kind.containsNull ||
+        (typeInfo l T).1.upgradeUndefined.kind.containsBoolean) ||
+        optValueEq (constOf l T) (some (.bool true))) = true
+    · -- the lhs is always "true": the result is the lhs
+      simp only [c2, if_true] at hko ⊢
+      cases hq : eval l { s with evShort := true } with
+      | mk r1 s1 =>
+        rw [hq] at h1
+        cases r1 with
+        | ok v =>
+          simp only [Sound] at h1
+          have hf := or_lhs_facts h1.1
+          have hv : ¬ (v = .null ∨ v = .bool false) := by
+            simp only [Bool.or_eq_true, Bool.not_eq_true'] at c2
+            rcases c2 with c2 | c2
+            · have := hf.2.2 c2
+              rintro (h | h)
+              · exact this.1 h
+              · exact this.2 _ h
+            · have := lhs_const hc0 hq c2
+              subst this
+              simp
+          simp only [hv, if_false, Sound]
+          exact ⟨memR_of_mem hf.1, h1.2.1, h1.2.2⟩
+        | err =>
+          simp only [Sound] at h1 ⊢
+          rcases h1 with h | h
+          · exact Or.inl h
+          · exact Or.inr (nan_l h)
+        | ret x => simp only [Sound] at h1 ⊢; exact h1
+        | _ => trivial
+    · -- unknown: both
+      simp only [c2, Bool.false_eq_true, if_false, allNan_append] at hko ⊢
+      rw [allNan_chk (by decide), allNan_chk (by decide)] at hko
+      obtain ⟨⟨hu1, hu2⟩, hm⟩ := hko
+      have mok := mergeOk_of_checks hm
+      simp only [maybeRhs]
+      cases hq : eval l { s with evShort := true } with
+      | mk r1 s1 =>
+        rw [hq] at h1
+        cases r1 with
+        | ok v =>
+          simp only [Sound] at h1
+          have hf := or_lhs_facts h1.1
+          by_cases hv : v = .null ∨ v = .bool false
+          · have h2 := ihr _ s1 hkr h1.2.2
+            simp only [hv, if_true]
+            cases hq2 : eval r s1 with
+            | mk r2 s2 =>
+              rw [hq2] at h2
+              cases r2 with
+              | ok w =>
+                simp only [Sound] at h2 ⊢
+                exact ⟨memR_union_right hu1 h2.1, h2.2.1, Conforms.merge_right mok h2.2.2⟩
+              | err =>
+                simp only [Sound] at h2 ⊢
+                rcases h2 with h | h
+                · exact Or.inl (by simp [h])
+                · exact Or.inr (nan_r h)
+              | ret x => simp only [Sound] at h2 ⊢; exact memR_union_right hu2 h2
+              | _ => trivial
+          · simp only [hv, if_false, Sound]
+            have hn : v ≠ .null := fun h => hv (Or.inl h)
+            exact ⟨memR_of_mem (mem_union_left' hu1 (mem_withoutNull hf.1 hn)), h1.2.1,
+              Conforms.merge_left mok h1.2.2⟩
+        | err =>
+          simp only [Sound] at h1 ⊢
+          rcases h1 with h | h
+          · exact Or.inl (by simp [TypeDef.upgradeUndefined, h])
+          · exact Or.inr (nan_l h)
+        | ret x => simp only [Sound] at h1 ⊢; exact memR_union_left hu2 h1
+        | _ => trivial
+
+/-- `&&`: what `Op::resolve` does after the lhs evaluated to `v` -/
+theorem eval_and (l r : Expr) (s : St) :
+    eval (.op .and l r) s =
+      (match eval l { s with evShort := true } with
+       | (.ok v, s1) =>
+         if v = .null ∨ v = .bool false then (.ok (.bool false), s1)
+         else
+           (match eval r s1 with
+            | (.ok w, s2) => (tryAnd v w, s2)
+            | x => x)
+       | x => x) := by
+  rw [eval]
+  cases hq : eval l { s with evShort := true } with
+  | mk r1 s1 =>
+    cases r1 with
+    | ok v =>
+      cases v with
+      | null => simp
+      | bool b => cases b <;> first | (simp; done) | (simp; rfl)
+      | _ => first | (simp; done) | (simp; rfl)
+    | _ => rfl
+
+theorem tryAnd_true_nullBool {w : Value} (h : w = .null ∨ ∃ b, w = .bool b) :
+    ∃ b, tryAnd (.bool true) w = .ok (.bool b) := by
+  rcases h with rfl | ⟨b, rfl⟩ <;> simp [tryAnd, Arith.tryAnd, ofArith]
+
+theorem sound_op_and (l r : Expr) (ihl : IH l) (ihr : IH r) : IH (.op .and l r) := by
+  intro T s hk hc
+  obtain ⟨hkl, _, hkr, hko⟩ := op_checks_split hk
+  have hc0 : Conforms { s with evShort := true } T := Conforms.of_same (s := s) ⟨rfl, rfl, rfl, rfl⟩ hc
+  have h1 := ihl T _ hkl hc0
+  rw [typeInfo, eval_and]
+  simp only [opInfo, opDef, opState]
+  simp only [opChecks] at hko
+  by_cases c1 : ((typeInfo l T).1.kind.isNull || optValueEq (constOf l T) (some (.bool false))) = true
+  · -- the lhs is always "false"
+    simp only [c1, if_true] at hko ⊢
+    rw [allNan_chk (by decide)] at hko
+    simp only [Bool.and_eq_true, Bool.not_eq_true'] at hko
+    cases hq : eval l { s with evShort := true } with
+    | mk r1 s1 =>
+      rw [hq] at h1
+      cases r1 with
+      | ok v =>
+        simp only [Sound] at h1
+        have hv : v = .null ∨ v = .bool false := by
+          simp only [Bool.or_eq_true] at c1
+          rcases c1 with c1 | c1
+          · exact Or.inl (memR_isNull c1 h1.1)
+          · exact Or.inr (lhs_const hc0 hq c1)
+        simp only [hv, if_true, Sound]
+        exact ⟨memR_bool _, rfl, h1.2.2⟩
+      | err =>
+        simp only [Sound] at h1 ⊢
+        rcases h1 with h | h
+        · rw [hko.1] at h; cases h
+        · exact Or.inr (nan_l h)
+      | ret x =>
+        simp only [Sound] at h1 ⊢
+        rw [memR_never x _ hko.2] at h1; cases h1
+      | _ => trivial
+  · simp only [c1, Bool.false_eq_true, if_false] at hko ⊢
+    by_cases c2 : optValueEq (constOf l T) (some (.bool true)) = true
+    · -- the lhs is always "true"
+      simp only [c2, if_true] at hko ⊢
+      rw [allNan_chk (by decide)] at hko
+      simp only [Bool.and_eq_true, Bool.not_eq_true'] at hko
+      cases hq : eval l { s with evShort := true } with
+      | mk r1 s1 =>
+        rw [hq] at h1
+        have hr1 := lhs_const_no_err hc0 hq c2
+        subst hr1
+        simp only [Sound] at h1
+        have h2 := ihr _ s1 hkr h1.2.2
+        simp only [reduceCtorEq, Value.bool.injEq, Bool.true_eq_false, or_self, if_false]
+        cases hq2 : eval r s1 with
+        | mk r2 s2 =>
+          rw [hq2] at h2
+          cases r2 with
+          | ok w =>
+            simp only [Sound] at h2
+            have hw := memR_nullBool (superset_prim_sound w nullBool _ nullBool_noExactAny hko.2 h2.1)
+            obtain ⟨b, hb⟩ := tryAnd_true_nullBool hw
+            simp only [hb, Sound]
+            exact ⟨memR_bool _, rfl, h2.2.2⟩
+          | err =>
+            simp only [Sound] at h2 ⊢
+            rcases h2 with h | h
+            · exact Or.inl h
+            · exact Or.inr (nan_r h)
+          | ret x => simp only [Sound] at h2 ⊢; exact h2
+          | _ => trivial
+    · -- unknown
+      simp only [c2, Bool.false_eq_true, if_false, allNan_append] at hko ⊢
+      rw [allNan_chk (by decide)] at hko
+      obtain ⟨hu2, hm⟩ := hko
+      have mok := mergeOk_of_checks hm
+      simp only [maybeRhs]
+      cases hq : eval l { s with evShort := true } with
+      | mk r1 s1 =>
+        rw [hq] at h1
+        cases r1 with
+        | ok v =>
+          simp only [Sound] at h1
+          by_cases hv : v = .null ∨ v = .bool false
+          · simp only [hv, if_true, Sound]
+            exact ⟨memR_bool _, rfl, Conforms.merge_left mok h1.2.2⟩
+          · have h2 := ihr _ s1 hkr h1.2.2
+            simp only [hv, if_false]
+            cases hq2 : eval r s1 with
+            | mk r2 s2 =>
+              rw [hq2] at h2
+              cases r2 with
+              | ok w =>
+                simp only [Sound] at h2
+                simp only
+                rcases tryAnd_shape v w with ⟨b, hb⟩ | hb
+                · simp only [hb, Sound]
+                  exact ⟨memR_bool _, rfl, Conforms.merge_right mok h2.2.2⟩
+                · simp only [hb, Sound]
+                  left
+                  simp only [TypeDef.withKind_fallible, TypeDef.union_fallible, Bool.or_eq_true]
+                  cases f1 : ((typeInfo l T).1.fallibleUnless nullBool).fallible with
+                  | true => exact Or.inl rfl
+                  | false =>
+                    cases f2 : ((typeInfo r (typeInfo l T).2).1.fallibleUnless nullBool).fallible with
+                    | true => exact Or.inr rfl
+                    | false =>
+                      exfalso
+                      have m1 := memR_nullBool (superset_prim_sound v nullBool _ nullBool_noExactAny
+                        (TypeDef.fallibleUnless_false _ _ f1) h1.1)
+                      have m2 := memR_nullBool (superset_prim_sound w nullBool _ nullBool_noExactAny
+                        (TypeDef.fallibleUnless_false _ _ f2) h2.1)
+                      have hvt : v = .bool true := by
+                        rcases m1 with rfl | ⟨b, rfl⟩
+                        · exact absurd (Or.inl rfl) hv
+                        · cases b
+                          · exact absurd (Or.inr rfl) hv
+                          · rfl
+                      subst hvt
+                      obtain ⟨b, hb'⟩ := tryAnd_true_nullBool m2
+                      rw [hb'] at hb; cases hb
+              | err =>
+                simp only [Sound] at h2 ⊢
+                rcases h2 with h | h
+                · exact Or.inl (by simp [TypeDef.fallibleUnless_mono _ _ h])
+                · exact Or.inr (nan_r h)
+              | ret x =>
+                simp only [Sound] at h2 ⊢
+                simp only [TypeDef.withKind_returns, TypeDef.union_returns, TypeDef.fallibleUnless_returns]
+                exact memR_union_right hu2 h2
+              | _ => trivial
+        | err =>
+          simp only [Sound] at h1 ⊢
+          rcases h1 with h | h
+          · exact Or.inl (by simp [TypeDef.fallibleUnless_mono _ _ h])
+          · exact Or.inr (nan_l h)
+        | ret x =>
+          simp only [Sound] at h1 ⊢
+          simp only [TypeDef.withKind_returns, TypeDef.union_returns, TypeDef.fallibleUnless_returns]
+          exact memR_union_left hu2 h1
+        | _ => trivial
+
+theorem sound_op (o : Opcode) (l r : Expr) (ihl : IH l) (ihr : IH r) : IH (.op o l r) := by
+  cases ho : strictOp o with
+  | true => exact sound_op_strict o ho l r ihl ihr
+  | false =>
+    cases o <;> simp [strictOp] at ho
+    · exact sound_op_or l r ihl ihr
+    · exact sound_op_and l r ihl ihr
+    · exact sound_op_err l r ihl ihr
+
 end Lang
